@@ -320,6 +320,12 @@ func (u *UntrustedInputChecker) OnVisitNodeLeave(n ExprNode) {
 	case *IndexAccessNode:
 		if lit, ok := n.Index.(*StringNode); ok {
 			// Special case like github['event']['issue']['title']
+			if lit.Value == "*" {
+				// "*" is the name of array element nodes in the search tree, but foo['*'] is an access
+				// to a property named "*". It never reaches an element of an array
+				u.cur = u.cur[:0]
+				break
+			}
 			u.onPropAccess(strings.ToLower(lit.Value)) // Property names are case insensitive
 			break
 		}
